@@ -108,7 +108,7 @@ pub fn uuid_hex(locator: &Locator, user: &UserId) -> String {
 
 // ---- configuration ---------------------------------------------------------------------------
 
-#[derive(Clone, Copy, Debug, PartialEq, Eq, Hash)]
+#[derive(Clone, Copy, Debug, PartialEq, Eq, Hash, serde::Serialize, serde::Deserialize)]
 pub struct TowerCfg {
     pub slots: u32,
     pub duration: u32,
@@ -512,16 +512,24 @@ pub struct DbView {
 }
 
 impl DbView {
-    pub fn read(path: &PathBuf) -> DbView {
-        let conn = rusqlite::Connection::open_with_flags(
+    pub fn open(path: &PathBuf) -> rusqlite::Connection {
+        rusqlite::Connection::open_with_flags(
             path,
             rusqlite::OpenFlags::SQLITE_OPEN_READ_ONLY | rusqlite::OpenFlags::SQLITE_OPEN_NO_MUTEX,
         )
-        .unwrap();
+        .unwrap()
+    }
+
+    pub fn read(path: &PathBuf) -> DbView {
+        let conn = Self::open(path);
+        Self::read_conn(&conn)
+    }
+
+    pub fn read_conn(conn: &rusqlite::Connection) -> DbView {
         let mut v = DbView::default();
         {
             let mut st = conn
-                .prepare("SELECT user_id, available_slots, subscription_start, subscription_expiry FROM users")
+                .prepare_cached("SELECT user_id, available_slots, subscription_start, subscription_expiry FROM users")
                 .unwrap();
             let mut rows = st.query([]).unwrap();
             while let Some(r) = rows.next().unwrap() {
@@ -534,7 +542,7 @@ impl DbView {
         }
         {
             let mut st = conn
-                .prepare("SELECT UUID, locator, encrypted_blob, to_self_delay, user_signature, start_block, user_id FROM appointments")
+                .prepare_cached("SELECT UUID, locator, encrypted_blob, to_self_delay, user_signature, start_block, user_id FROM appointments")
                 .unwrap();
             let mut rows = st.query([]).unwrap();
             while let Some(r) = rows.next().unwrap() {
@@ -556,7 +564,7 @@ impl DbView {
         }
         {
             let mut st = conn
-                .prepare("SELECT UUID, dispute_tx, penalty_tx, height, confirmed FROM trackers")
+                .prepare_cached("SELECT UUID, dispute_tx, penalty_tx, height, confirmed FROM trackers")
                 .unwrap();
             let mut rows = st.query([]).unwrap();
             while let Some(r) = rows.next().unwrap() {
@@ -587,7 +595,7 @@ impl DbView {
             .query_row("SELECT COUNT(*) FROM keys", [], |r| r.get::<_, usize>(0))
             .unwrap_or(0);
         {
-            let mut st = conn.prepare("PRAGMA foreign_key_check").unwrap();
+            let mut st = conn.prepare_cached("PRAGMA foreign_key_check").unwrap();
             let mut rows = st.query([]).unwrap();
             while let Some(_r) = rows.next().unwrap() {
                 v.fk_violations += 1;
@@ -640,27 +648,38 @@ static DB_COUNTER: AtomicU64 = AtomicU64::new(0);
 
 pub struct ScratchDb {
     pub path: PathBuf,
+    dir: PathBuf,
 }
 
 impl ScratchDb {
     pub fn new() -> Self {
-        let dir = if std::path::Path::new("/dev/shm").is_dir() {
+        let base = if std::path::Path::new("/dev/shm").is_dir() {
             PathBuf::from("/dev/shm")
         } else {
             std::env::temp_dir()
         };
         let n = DB_COUNTER.fetch_add(1, Ordering::Relaxed);
-        let path = dir.join(format!("verif-teos-{}-{}.sql3", std::process::id(), n));
-        let _ = std::fs::remove_file(&path);
-        ScratchDb { path }
+        // One directory per world: sqlite creates and unlinks a journal file for every write
+        // transaction, and a shared directory would serialise all workers on its inode lock.
+        let dir = base.join(format!("verif-teos-{}", std::process::id())).join(format!("{n}"));
+        let _ = std::fs::remove_dir_all(&dir);
+        std::fs::create_dir_all(&dir).unwrap();
+        let path = dir.join("teos_db.sql3");
+        ScratchDb { path, dir }
     }
 }
 
 impl Drop for ScratchDb {
     fn drop(&mut self) {
-        let _ = std::fs::remove_file(&self.path);
-        let mut j = self.path.clone().into_os_string();
-        j.push("-journal");
-        let _ = std::fs::remove_file(PathBuf::from(j));
+        let _ = std::fs::remove_dir_all(&self.dir);
     }
+}
+
+pub fn cleanup_scratch() {
+    let base = if std::path::Path::new("/dev/shm").is_dir() {
+        PathBuf::from("/dev/shm")
+    } else {
+        std::env::temp_dir()
+    };
+    let _ = std::fs::remove_dir_all(base.join(format!("verif-teos-{}", std::process::id())));
 }
